@@ -82,7 +82,7 @@ def _plbf_post(S_):
     nv = n.f(node, "_value")
     return And(n.llen(r) == If(ln < cap, ln, cap),
                z3.ForAll([k], Implies(And(k >= 0, k < n.llen(r)), And(
-                   S_.isinst(node, "Node"), n.f(node, "_parent") == S_.a.parent_node, n.f(node, "_depth") == VInt(0),
+                   S_.created_during_call(node), S_.isinst(node, "Node"), n.f(node, "_parent") == S_.a.parent_node, n.f(node, "_depth") == VInt(0),
                    S_.isinst(nv, "NodeValue"), n.f(nv, "value") == h.lget(S_.a.value, k),
                    n.f(nv, "name") == Val.VStr(StrOf(Val.VInt(k))), Val.is_VNone(n.f(nv, "original_name"))))))
 
@@ -102,10 +102,66 @@ def _plbf_inv(L):
     return And(nodes == L.pre_local("nodes"), Val.is_VInt(total), iv(total) == L.index, h.llen(nodes) == L.index,
                L.index <= cap,
                z3.ForAll([k], Implies(And(k >= 0, k < L.index), And(
-                   L.allocated(node), h.typeof(node) == cidn, h.f(node, "_parent") == L.local("parent_node"),
+                   L.allocated(node), Val.r(node) >= L.pre.next_id, h.typeof(node) == cidn, h.f(node, "_parent") == L.local("parent_node"),
                    h.f(node, "_depth") == VInt(0), L.allocated(nv), h.typeof(nv) == cidv,
                    h.f(nv, "value") == L.seq.element(k), h.f(nv, "name") == Val.VStr(StrOf(Val.VInt(k))),
                    Val.is_VNone(h.f(nv, "original_name"))))))
 
 
 c.loop("loop#1", invariant=_plbf_inv, modifies=lambda L: [("list", L.local("nodes"))])
+
+
+# =============================================================================== breadth_first_search
+def _consumer(it, sc, args, kwargs, node, anchor):
+    """The search consumer (VariableSetProcessor.search_function by its contract): may add children to the node
+    it is given, record variables, and says whether to go on.  It never fails (C06, proved on search_function)."""
+    res = it.ctx.fresh("go_on", B)
+    it.st.log.append(LogEntry("consumer", list(args), kwargs, Val.VBool(res), anchor))
+    popped = args[0]
+    ch = it.st.get_field(Val.r(popped), "_children")
+    q = it.frame.locals.get("queue")
+    if q is not None:
+        it.ctx.assume(ch != q)      # the work list is a local of the search: no node's children list is it
+    # the consumer may extend the children list of the node it was given (nothing else the search reads)
+    it.apply_havoc([("list", ch)])
+    it.ctx.assume(z3.Select(it.st.llen, Val.r(ch)) >= 0)
+    return Val.VBool(res)
+
+
+c = contract(BFS, "breadth_first_search", ["C05", "C07"])
+c.param("node", OBJ("Node")).param("consumer", CALLABLE(_consumer))
+c.result = NONE
+c.modifies = lambda S_: [("all",)]
+
+
+def _bfs_inv(L):
+    h = L.now()
+    q = L.local("queue")
+    L.I.st.ghost.setdefault("elem_sorts", {})[str(z3.simplify(q))] = OBJ("Node")     # the work list holds Nodes
+    return And(q == L.pre_local("queue"), h.llen(q) >= 0)
+
+
+def _bfs_body(L):
+    """FIFO work list: the node handed to the consumer is the OLDEST queued node, and (when the search goes
+    on) the new queue is the rest of the old one followed by that node's children in order.  With children one
+    level below their parent (Node.add_children) this is breadth-first order: everything at one depth is
+    visited before anything deeper."""
+    h0, h1 = L.at_iteration_start(), L.now()
+    q = L.local("queue")
+    calls = [e for e in L.iter_log() if e.label == "consumer"]
+    if len(calls) != 1:
+        return [("one-node-per-step", z3.BoolVal(False))]
+    popped = calls[0].args[0]
+    n0 = h0.llen(q)
+    ch = h1.f(popped, "_children")
+    k = z3.Int("k!bfs")
+    m = h1.llen(ch)
+    return [("oldest-node-first", popped == h0.lget(q, 0)),
+            ("rest-then-children-in-order", And(
+                h1.llen(q) == n0 - 1 + m,
+                z3.ForAll([k], Implies(And(k >= 0, k < n0 - 1), h1.lget(q, k) == h0.lget(q, k + 1))),
+                z3.ForAll([k], Implies(And(k >= 0, k < m), h1.lget(q, n0 - 1 + k) == h1.lget(ch, k)))))]
+
+
+c.loop("loop#1", invariant=_bfs_inv, body_ensures=_bfs_body,
+       modifies=lambda L: [("list", L.local("queue"))])
